@@ -174,6 +174,7 @@ impl_named_type!(i8, i16, i32, i64, u8, u16, u32, u64, f16, f32, f64);
 pub trait Offset: std::ops::Add<Self, Output = Self> + Clone + Copy + Default + 'static {
     fn try_form_usize(val: usize) -> Result<Self>;
     fn try_into_usize(self) -> Result<usize>;
+    fn checked_add(self, other: Self) -> Option<Self>;
 }
 
 impl Offset for i32 {
@@ -184,6 +185,10 @@ impl Offset for i32 {
     fn try_into_usize(self) -> Result<usize> {
         Ok(self.try_into()?)
     }
+
+    fn checked_add(self, other: Self) -> Option<Self> {
+        i32::checked_add(self, other)
+    }
 }
 
 impl Offset for i64 {
@@ -193,6 +198,10 @@ impl Offset for i64 {
 
     fn try_into_usize(self) -> Result<usize> {
         Ok(self.try_into()?)
+    }
+
+    fn checked_add(self, other: Self) -> Option<Self> {
+        i64::checked_add(self, other)
     }
 }
 
